@@ -96,7 +96,11 @@ func (ex *Exec) verifyTop() {
 			}()
 			t := ex.evalBool(g.E, &genv)
 			vc.assume(t)
-			vc.Assumptions["trusted global fact: "+g.Text] = true
+			if g.Axiom {
+				vc.Assumptions["definitional axiom of a specification function: "+g.Text] = true
+			} else {
+				vc.Assumptions["trusted global fact: "+g.Text] = true
+			}
 		}()
 	}
 	for _, rq := range c.Requires {
